@@ -19,7 +19,7 @@
     (paths of methods of [sk]); [wp] switches sync.RWMutex's writer preference
     on or off (the theorems hold for both); [wfun] are the (uninterpreted)
     functions computing written values from the values read. *)
-From HV Require Import Base.Prelude Base.Locks C07.Model C07.Lin C07.Proofs Gen.RepoSkel C07.Repo.
+From HV Require Import Base.Prelude Base.Locks C07.Model C07.Lin C07.Proofs C07.Examples Gen.RepoSkel C07.Repo.
 
 (** no interleaving reaches a crash: unlock of an unlocked mutex, nil
     dereference (use of an object pointer that was never loaded), or code the
@@ -105,6 +105,22 @@ Theorem C07_readers_see_committed_state :
 Proof. exact g_committed. Qed.
 Print Assumptions C07_readers_see_committed_state.
 
+(** real-time order: if operation 1 had returned before operation 2 was invoked
+    (the labels in [ld] between the invocation and the response of operation 2
+    are not starts/ends of thread [t2], i.e. that response belongs to that
+    invocation), the sequential history has operation 1 before operation 2 *)
+Theorem C07_real_time_order :
+  forall (val arg : Type) (wfun : op arg -> nat -> list val -> val) (sk : skel) (wp : bool) (K : lock),
+    wf_skel K sk = true ->
+    forall (c0 c : cfg val arg) la t1 o1 log1 lb t2 o2 ld log2 le,
+      initial c0 ->
+      exec wfun sk wp c0 (la ++ LEnd t1 o1 log1 :: lb ++ LBegin t2 o2 :: ld ++ LEnd t2 o2 log2 :: le) c ->
+      Forall (other_thread t2) ld ->
+      exists H Ha Hm Hb s,
+        seq_hist wfun sk (abs_of c0) H s /\ H = Ha ++ (t1, o1, log1) :: Hm ++ (t2, o2, log2) :: Hb.
+Proof. exact g_real_time. Qed.
+Print Assumptions C07_real_time_order.
+
 (** no change is lost or half overwritten: when no operation is in flight, the
     guarded fields and the published tree ARE the state reached by the
     sequential history, which contains every completed operation *)
@@ -129,6 +145,20 @@ Theorem C07_seq_spec_total :
       path_of sk o = Some path -> exists s' log, seq_run wfun sk o s = Some (s', log).
 Proof. exact g_seq_total. Qed.
 Print Assumptions C07_seq_spec_total.
+
+(** the boolean check is not idle: a skeleton that it rejects (pointer stored and
+    loaded without any lock) does reach a data race in the semantics *)
+Theorem C07_check_is_needed :
+  exists (sk : skel) (c : cfg nat unit),
+    wf_locks sk = false /\ reach wf0 sk false c /\ var_race c.
+Proof. exact check_is_needed. Qed.
+Print Assumptions C07_check_is_needed.
+
+(** ... and the pattern of the repository (hand-written here, independent of the
+    generated file) is accepted, so the theorems are not vacuous *)
+Theorem C07_nonvacuous : wf_skel 0 (ex_skel (ex_add true false false)) = true.
+Proof. exact ex_good. Qed.
+Print Assumptions C07_nonvacuous.
 
 (** the instances for the repository as it is in the working tree *)
 Theorem C07_repo_safe :
